@@ -134,7 +134,7 @@ where
         Some(std::io::Write::flush(self))
     }
 }
-impl<E: Endianness, BW: BitWrite<E>> MaybeIoWrite for CountBitWriter<E, BW> {}
+impl<E: Endianness, BW: BitWrite<E>, const PRINT: bool> MaybeIoWrite for CountBitWriter<E, BW, PRINT> {}
 impl<E: Endianness, BW> MaybeIoWrite for DbgBitWriter<E, BW> {}
 
 /// Source readers for CopyIn, built at concrete types.
@@ -367,6 +367,12 @@ pub fn make_rec_writer(e: End, wbits: usize, wrapper: &str) -> Box<dyn Wr> {
                     Box::new(RecWr::<$E, C> { w: Some(CountBitWriter::new(w)), log, flushes, counter: Some(|c: &C| c.bits_written as u64), _e: std::marker::PhantomData })
                         as Box<dyn Wr>
                 }
+                "countp" => {
+                    // the counting wrapper with its PRINT parameter on (traces to stderr)
+                    type C = CountBitWriter<$E, BufBitWriter<$E, Rec<$W>>, true>;
+                    Box::new(RecWr::<$E, C> { w: Some(CountBitWriter::<$E, _, true>::new(w)), log, flushes, counter: Some(|c: &C| c.bits_written as u64), _e: std::marker::PhantomData })
+                        as Box<dyn Wr>
+                }
                 "dbg" => {
                     type D = DbgBitWriter<$E, BufBitWriter<$E, Rec<$W>>>;
                     Box::new(RecWr::<$E, D> { w: Some(DbgBitWriter::new(w)), log, flushes, counter: None, _e: std::marker::PhantomData }) as Box<dyn Wr>
@@ -553,7 +559,7 @@ pub fn run_on_backend(e: End, wbits: usize, backend: &str, finisher: &str, ops: 
                 "slice" => drive!(
                     $E,
                     $W,
-                    BufBitWriter::<$E, _>::new(MemWordWriterSlice::<$W, Vec<$W>>::new(vec![0 as $W; cap_words])),
+                    BufBitWriter::<$E, _>::new(MemWordWriterSlice::<$W, Vec<$W>>::new(words_from_bytes::<$W>(&vec![VECPRE_BYTE; cap_words * std::mem::size_of::<$W>()]))),
                     |b: MemWordWriterSlice<$W, Vec<$W>>| bytes_from_words::<$W>(&b.into_inner()),
                     None
                 ),
